@@ -18,9 +18,9 @@ def main(tier, args):
     with ThreadPoolExecutor(2) as ex:
         cmd, fe = list(ex.map(b, ["cmd", "fe"]))
     quick = tier == "quick"
-    print("C13: build %.1fs" % (time.time() - t0)); t1 = time.time()
+    print("C13: build %.1fs" % (time.time() - t0))
     # quick: the full length-4 sweep goes through onTcpReceived directly (exact-capacity buffers), the socket path gets length<=3 + all frames
-    ed_depth, cmd_depth, fe_len, fe_len_sock, dl = (6, 4, 4, 3, 75) if quick else (8, 6, 5, 5, 1200)
+    ed_depth, cmd_depth, fe_len, fe_len_sock, dl = (6, 4, 4, 3, 60) if quick else (8, 6, 5, 5, 1200)
     dl = int(os.environ.get("VERIF_DEADLINE_S", dl))
     jobs = []
     # single-process searches first, the sharded front-end sweeps fill the remaining slots and time
@@ -53,7 +53,7 @@ def main(tier, args):
     res.stats["violating_cases_printed"] = len(kept)
     res.viols = kept
     vf.finish(PID, tier, res, t0,
-              rule="(1a, engine H, in-process BFS) all keystroke histories over {a, b, BS, DEL, LEFT, RIGHT, HOME, END, UP, DOWN, ENTER}, depth<=%d, each key sent as its unsplit "
+              rule="(1a, engine H, BFS, every history replayed in a crash-contained child) all keystroke histories over {a, b, BS, DEL, LEFT, RIGHT, HOME, END, UP, DOWN, ENTER}, depth<=%d, each key sent as its unsplit "
                    "byte encoding through Terminal::onRecvString on a fresh session behind a fake Connection, with echo / without echo / quiet mode, on an empty and on a 19-entry history; "
                    "the probe node is mounted under every line over {a,b} that fits the bound so argv[0] is the executed line; oracle after every key = reference line editor + 20-entry history "
                    "(executed line, exactly one '# ' prompt per Enter (none in quiet mode), cursor<=length, line/cursor/history/history-index equal to the reference); "
